@@ -36,7 +36,7 @@ func getEnv(rm, cr, level int) *env {
 	a1, c1 := e2e.DeadBackend(name(1), 0), e2e.DeadBackend(name(3), 1)
 	srv := e2e.Start(e2e.Options{
 		Products: []e2e.Product{{Name: "p", Hosts: []string{"example.org"}, Cluster: "c"}},
-		Clusters: []e2e.Cluster{{Name: "c", RetryMax: rm, CrossRetry: cr, RetryLevel: level, TimeoutResponseHeader: 60,
+		Clusters: []e2e.Cluster{{Name: "c", RetryMax: rm, CrossRetry: cr, RetryLevel: level, TimeoutResponseHeader: 300,
 			SubClusters: []e2e.SubCluster{
 				{Name: "s1", Weight: 100, Backends: []*e2e.Backend{a0, a1}},
 				{Name: "s2", Weight: 0, Backends: []*e2e.Backend{c0, c1}},
@@ -170,7 +170,7 @@ func gen(r *hv.Rng, i int, tier string) (string, hv.Val) {
 	if r.Chance(3, 4) {
 		nf := r.Intn(rm + cr + 3)
 		for k := 0; k < nf; k++ {
-			if r.Chance(1, 12) {
+			if r.Chance(1, 30) {
 				steps = append(steps, hv.I(5))
 			} else {
 				steps = append(steps, hv.I(1+r.Intn(2)))
